@@ -1,6 +1,7 @@
 import Driver.Vectored
 import Driver.Sinks
 import Driver.Global
+import Driver.Histogram
 /-!
 `driver <engine>`: reads one request per line on stdin, prints one reply per line.
 Every engine is a pure function `String → String` of the request line (stateful models receive the
@@ -10,7 +11,8 @@ whole operation sequence in one line), so a disagreement replays from the line a
 def engines : List (String × (String → String)) := [
   ("vectored", Driver.Vectored.handle),
   ("sinks", Driver.Sinks.handle),
-  ("global", Driver.Global.handle)
+  ("global", Driver.Global.handle),
+  ("histogram", Driver.Histogram.handle)
 ]
 
 partial def loop (h : IO.FS.Stream) (out : IO.FS.Stream) (f : String → String) : IO Unit := do
